@@ -19,7 +19,8 @@ RULE = ("Generated: smooth&decomposable layer DAGs built by construction (G-sd: 
         "shape (B,O,K), values within the magnitude-aware bound, and row independence (single-row "
         "re-evaluation and batch permutation). Non-trivial = at least one sum and one product layer; "
         "distinct = hash of (spec, config).")
-ASSUMPTIONS = ["values compared in float64 with |lin(y)-r| <= 1e-9*M, M = circuit evaluated on absolute values",
+ASSUMPTIONS = ["values compared in float64 with |lin(y)-r| <= 1e-9*M, M = circuit evaluated on absolute values "
+               "(a quarter of the cases run under torch's default float32 with 2e-4*M; the wide profile stays float64)",
                "lse-sum only on circuits with non-negative units; sum-product only with real parameters"]
 
 
@@ -36,7 +37,9 @@ def _case(draw, tier):
         spec = draw(gen.sd_circuit(input_types=gen.ALL_INPUTS, cx=True, with_const=True, **kw))
     return {"spec": spec, "semiring": sem, "fold": draw(st.booleans()), "optimize": draw(st.booleans()),
             "vseed": draw(st.integers(0, 2**20)), "profile": draw(st.sampled_from(tie.PROFILES)),
-            "xseed": draw(st.integers(0, 2**20)), "bclass": draw(st.sampled_from(harness.BCLASSES))}
+            "xseed": draw(st.integers(0, 2**20)), "bclass": draw(st.sampled_from(harness.BCLASSES)),
+            # torch's default dtype is float32 and discrete data usually comes as integer tensors
+            "f32": draw(st.integers(0, 3)) == 0, "xint": draw(st.integers(0, 2)) == 0}
 
 
 @st.composite
@@ -88,8 +91,22 @@ def _run_template_case(case):
 
 
 def run_case(case):
+    import torch
+
     if "template" in case:
         return _run_template_case(case)
+    f32 = bool(case.get("f32")) and case.get("profile") != "wide"
+    try:
+        if f32:
+            torch.set_default_dtype(torch.float32)
+        return _run_spec_case(case, f32)
+    finally:
+        torch.set_default_dtype(torch.float64)
+
+
+def _run_spec_case(case, f32):
+    import torch
+
     spec = case["spec"]
     sem = case["semiring"]
     sc = build(spec)
@@ -100,25 +117,51 @@ def run_case(case):
     nv = len(spec_scope(spec))
     B = harness.batch_size(case["bclass"], cc, nv)
     X = gen.draw_inputs_rng(spec, case["xseed"], B)
-    feat = _features(spec, case, cc, B)
-    y = harness.evaluate(cc, X, sem)
+    feat = _features(spec, case, cc, B) + ("+f32" if f32 else "")
+    dom = gen.domains_of(spec)
+    all_discrete = bool(dom) and all(d[0] == "d" for d in dom.values())
+    xint = bool(case.get("xint")) and all_discrete
+    rtol = 2e-4 if f32 else tol.RTOL
+    if f32:
+        # the reference sees the values the float32 tensors actually hold
+        vals = {t: v.astype(np.complex128 if np.iscomplexobj(v) else np.float64)
+                for t, v in tie.read_values(comp, tensors).items()}
+
+    def ev(Xv, what="evaluate"):
+        if xint:
+            xt = torch.from_numpy(np.ascontiguousarray(Xv)).long()
+        else:
+            xt = torch.from_numpy(np.ascontiguousarray(Xv)).to(torch.get_default_dtype())
+        from vlib.runner import sut
+
+        with sut(what), torch.no_grad():
+            out = cc(xt)
+        if f32:  # compare in double precision (exp of a float32 log-value must not underflow here)
+            out = out.to(torch.complex128 if out.is_complex() else torch.float64)
+        return tol.lin(out, sem)
+
+    if xint:
+        feat += "+xint"
+    y = ev(X)
     r, M = ref.evaluate_with_mag(sc, vals, X)
+    if f32:
+        M = M + 1e-26  # linear-space float32 values underflow below ~1e-38: absolute slack 2e-30
     O, K = len(spec["outputs"]), r.shape[2]
     if tuple(y.shape) != (B, O, K):
         raise Violation("output-shape", f"shape:{feat}", f"got {tuple(y.shape)} expected {(B, O, K)}")
-    res = harness.check_against_ref(y, r, M, "value-vs-reference", sigprefix=f"{feat}:")
+    res = harness.check_against_ref(y, r, M, "value-vs-reference", sigprefix=f"{feat}:", rtol=rtol)
     # row independence (metamorphic)
     if res == "ok" and B > 1:
         i = case["xseed"] % B
-        yi = harness.evaluate(cc, X[i:i + 1], sem, what="evaluate-single-row")
+        yi = ev(X[i:i + 1], what="evaluate-single-row")
         if tuple(yi.shape) != (1, O, K):
             raise Violation("row-independence", f"single-row-shape:{feat}", f"{tuple(yi.shape)}")
-        msg = tol.mismatch(yi[0], y[i], M[i])
+        msg = tol.mismatch(yi[0], y[i], M[i], rtol=rtol)
         if msg:
             raise Violation("row-independence", f"single-row:{feat}", msg)
         perm = np.random.default_rng(case["xseed"]).permutation(B)
-        yp = harness.evaluate(cc, X[perm], sem, what="evaluate-permuted")
-        msg = tol.mismatch(yp, y[perm], M[perm])
+        yp = ev(X[perm], what="evaluate-permuted")
+        msg = tol.mismatch(yp, y[perm], M[perm], rtol=rtol)
         if msg:
             raise Violation("row-independence", f"permutation:{feat}", msg)
     types = {L["t"] for L in spec["layers"]}
@@ -128,6 +171,9 @@ def run_case(case):
         classes.append("B==fold-count")
     if res == "degenerate":
         classes.append("degenerate-reference")
+    classes.append("dtype:float32" if f32 else "dtype:float64")
+    if xint:
+        classes.append("integer-input-tensor")
     nontrivial = res == "ok" and "sum" in types and bool(types & {"had", "kro"})
     return {"nontrivial": nontrivial, "classes": classes}
 
